@@ -20,9 +20,11 @@
 (* INTERNAL step Lin(i) between them, and TLC searches for the placement of  *)
 (* the Lin steps (depth-first queue).  The search is pruned without losing   *)
 (* any linearization:                                                       *)
-(*  - Lin steps are taken only immediately before an event that may need     *)
-(*    them (the return of a not yet linearized call, a watcher event); a Lin *)
-(*    step commutes with every other kind of event.                          *)
+(*  - calls that can never change the state (reads, refused writes) take     *)
+(*    effect as soon as their recorded result is right (Eager);             *)
+(*  - Lin steps of possibly mutating calls are taken only when the next      *)
+(*    event cannot be consumed without one (NeedLin); a Lin step commutes    *)
+(*    with every event that can be consumed without it.                      *)
 (*  - the position of a watch's initial listing ("some position of the log") *)
 (*    is chosen as late as possible inside the window in which the state     *)
 (*    equals the listing: right before the successful mutation that ends the *)
@@ -31,7 +33,8 @@
 (* nothing pending (<<"ACCEPT", h>>).  If the search of a history is         *)
 (* exhausted first, <<"HWM", n>> names the event TLC could not get past.     *)
 (* Relax (diagnosis only): a set of check names that are switched off, used  *)
-(* to name the predicate a rejected history violates.                        *)
+(* to name the predicate a rejected history violates; "full-search" relaxes  *)
+(* nothing but switches the first two reductions off (cross-check).          *)
 (***************************************************************************)
 EXTENDS ResourceStore, Json, SequencesExt
 
@@ -63,11 +66,11 @@ Untaken == {Trace[hdr].watches[i].wid : i \in DOMAIN Trace[hdr].watches} \ DOMAI
 \* chosen position (a listing cut short by a restore need only be a part of it)
 ListingOK(s, wid) ==
   LET d == WDecl(wid) IN
-  \/ "watch-listing" \in Relax
-  \/ IF d.eos THEN ToSet(d.snap) = ListOf(s, d.q) /\ Len(d.snap) = Cardinality(ListOf(s, d.q))
-     ELSE ToSet(d.snap) \subseteq ListOf(s, d.q)
+  IF d.eos THEN ToSet(d.snap) = ListOf(s, d.q) /\ Len(d.snap) = Cardinality(ListOf(s, d.q))
+  ELSE ToSet(d.snap) \subseteq ListOf(s, d.q)
 
 Take(w, T) == [x \in DOMAIN w \cup T |-> IF x \in T THEN WatchTake(st, WDecl(x).q) ELSE w[x]]
+SetW(wid, w) == [x \in DOMAIN ws \cup {wid} |-> IF x = wid THEN w ELSE ws[x]]
 
 ---------------------------------------------------------------------------
 (* result conformance: error CLASS, result SET (order of a list is not specified) *)
@@ -78,19 +81,14 @@ ResOK(exp, got, kind) ==
 
 NewVer(e) == IF e.op.t = "write" /\ e.res.t = "ok" /\ Len(e.res.rs) = 1 THEN e.res.rs[1].ver ELSE ""
 AbsOp(o) == IF o.t = "restore" THEN [t |-> "restore", rs |-> ToSet(o.rs)] ELSE o
+\* the call MAY change the state in some linearization (a DeleteCAS that returned nil may have been a no-op)
 Mutates(e) == e.op.t = "restore" \/ (e.op.t \in {"write", "delete"} /\ e.res.t = "ok")
 
-\* some step at this position may need a linearization point
-NeedLin == /\ l <= N
-           /\ \/ Trace[l].e = "ret" /\ Trace[l].id \notin done
-              \/ Trace[l].e \in {"wev", "wrd", "wdone"}
-
 \* watches whose listing may be positioned right before the mutation of call i takes effect
-Cands(i) == IF ~Mutates(Trace[i]) THEN {}
-            ELSE {wid \in Untaken :
-                    /\ WDecl(wid).first = 0 \/ Trace[l].at <= WDecl(wid).first
-                    /\ Trace[i].op.t = "restore" \/ Matches(WDecl(wid).q, Trace[i].op.k)
-                    /\ ListingOK(st, wid)}
+Cands(i) == {wid \in Untaken :
+               /\ WDecl(wid).first = 0 \/ Trace[l].at <= WDecl(wid).first
+               /\ Trace[i].op.t = "restore" \/ Matches(WDecl(wid).q, Trace[i].op.k)
+               /\ ListingOK(st, wid)}
 
 (* Lin(i, T): call i takes effect now, exactly as the sequential specification says, and     *)
 (* returns what was recorded; the listings of the watches in T are positioned just before it *)
@@ -103,6 +101,52 @@ Lin(i, T) ==
      /\ pend' = pend \ {i}
      /\ done' = done \cup {e.id}
      /\ UNCHANGED <<l, hdr>>
+
+\* calls that change the state in NO linearization (reads, refused writes) and whose recorded result
+\* is right in the current state: linearizing such a call at once loses nothing
+Eager == {i \in pend : ~Mutates(Trace[i]) /\ ResOK(Apply(st, AbsOp(Trace[i].op), "").res, Trace[i].res, Trace[i].op.t)}
+EagerLin == LET i == CHOOSE x \in Eager : \A y \in Eager : x <= y IN Lin(i, {})
+
+---------------------------------------------------------------------------
+(* watcher events *)
+
+\* the watch as it is when its event is consumed: positioned now if it was not yet
+Positioned(wid) == IF wid \in DOMAIN ws THEN ws[wid] ELSE WatchTake(st, WDecl(wid).q)
+CanPosition(wid) == wid \in DOMAIN ws \/ ListingOK(st, wid) \/ "watch-listing" \in Relax
+
+SameEvent(k, ent, e) == ent.kind # "restore" /\ EventOf(k, ent) = [kind |-> e.kind, r |-> e.r[1]]
+Olds(w, k, e) == {j \in 1..w.cur[k] : SameEvent(k, st.log[k][j], e)}
+RestoreIn(k, a, b) == \E x \in a..b : st.log[k][x].kind = "restore"
+
+\* WatchOrdered: a live event is the NEXT entry of its resource's log after the watcher's position -
+\* in commit order, none skipped, none repeated, none stale, never across a restore.
+\* (the Relax alternatives exist only to NAME what a rejected history violates)
+LiveNext(w, e) ==
+  LET k == e.r[1].k IN
+  IF k \notin Keys(st) \/ ~Matches(w.q, k) THEN (IF "watch-order" \in Relax THEN {w} ELSE {})
+  ELSE (IF HasNext(st, w, k) /\ SameEvent(k, NextEntry(st, w, k), e) THEN {Advance(w, k)} ELSE {})
+       \cup (IF "watch-order-xrestore" \in Relax /\ \E j \in Olds(w, k, e) : RestoreIn(k, j + 1, w.cur[k]) THEN {w} ELSE {})
+       \cup (IF "watch-order-dup" \in Relax /\ \E j \in Olds(w, k, e) : ~RestoreIn(k, j + 1, w.cur[k]) THEN {w} ELSE {})
+       \cup (IF "watch-order" \in Relax THEN {w} ELSE {})
+
+WEvNext(e) ==
+  IF ~CanPosition(e.wid) THEN {}
+  ELSE IF e.kind \in {"closed", "eos"} \/ e.ph = "snap" THEN {Positioned(e.wid)}
+  ELSE LiveNext(Positioned(e.wid), e)
+
+\* ReadAfterEventMonotone
+WRdOK(e) ==
+  LET slot == IF e.res.t = "ok" THEN <<Strip(e.res.rs[1])>> ELSE <<>> IN
+  \/ "read-after-event" \in Relax
+  \/ /\ e.wid \in DOMAIN ws
+     /\ e.res.t = "ok" \/ e.res.e = "notfound"
+     /\ e.res.t = "ok" => e.res.rs[1].k = e.k
+     /\ e.k \in Keys(st)
+     /\ NotOlder(st, ws[e.wid], e.k, slot)
+
+\* WatchComplete (events): after the last writes of the run the watcher has been told everything
+WDoneOK(e) == \/ "watch-done" \in Relax
+              \/ e.wid \in DOMAIN ws /\ CaughtUp(st, ws[e.wid])
 
 ---------------------------------------------------------------------------
 (* consuming recorded events *)
@@ -120,49 +164,24 @@ WOpen == /\ Trace[l].e = "wopen"
          /\ Trace[l].wid \in DOMAIN ws => ws[Trace[l].wid].ep = st.ep
          /\ UNCHANGED <<st, pend, done, ws, hdr>>
 
-\* the watch as it is when its event is consumed: positioned now if it was not yet
-Positioned(wid) == IF wid \in DOMAIN ws THEN ws[wid] ELSE WatchTake(st, WDecl(wid).q)
-CanPosition(wid) == wid \in DOMAIN ws \/ ListingOK(st, wid)
+WEv == /\ Trace[l].e = "wev"
+       /\ \E w2 \in WEvNext(Trace[l]) : ws' = SetW(Trace[l].wid, w2)
+       /\ UNCHANGED <<st, pend, done, hdr>>
 
-WEv ==
-  /\ Trace[l].e = "wev"
-  /\ LET e == Trace[l]
-         wid == e.wid
-         w == Positioned(wid)
-     IN /\ CanPosition(wid)
-        /\ CASE e.kind = "closed" -> ws' = [x \in DOMAIN ws \cup {wid} |-> IF x = wid THEN w ELSE ws[x]]
-             [] e.kind = "eos" -> ws' = [x \in DOMAIN ws \cup {wid} |-> IF x = wid THEN w ELSE ws[x]]
-             [] e.ph = "snap" -> ws' = [x \in DOMAIN ws \cup {wid} |-> IF x = wid THEN w ELSE ws[x]]
-             [] OTHER ->
-                \* WatchOrdered: a live event is the NEXT entry of its resource's log after the
-                \* watcher's position - in commit order, none skipped, none repeated, none stale
-                LET k == e.r[1].k IN
-                IF "watch-order" \in Relax
-                THEN ws' = [x \in DOMAIN ws \cup {wid} |-> IF x = wid THEN w ELSE ws[x]]
-                ELSE /\ k \in Keys(st)
-                     /\ HasNext(st, w, k)
-                     /\ EventOf(k, NextEntry(st, w, k)) = [kind |-> e.kind, r |-> e.r[1]]
-                     /\ ws' = [x \in DOMAIN ws \cup {wid} |-> IF x = wid THEN Advance(w, k) ELSE ws[x]]
-  /\ UNCHANGED <<st, pend, done, hdr>>
+WRd == /\ Trace[l].e = "wrd" /\ WRdOK(Trace[l])
+       /\ UNCHANGED <<st, pend, done, ws, hdr>>
 
-\* ReadAfterEventMonotone
-WRd ==
-  /\ Trace[l].e = "wrd"
-  /\ LET e == Trace[l]
-         slot == IF e.res.t = "ok" THEN <<Strip(e.res.rs[1])>> ELSE <<>>
-     IN \/ "read-after-event" \in Relax
-        \/ /\ e.wid \in DOMAIN ws
-           /\ e.res.t = "ok" \/ e.res.e = "notfound"
-           /\ e.res.t = "ok" => e.res.rs[1].k = e.k
-           /\ NotOlder(st, ws[e.wid], e.k, slot)
-  /\ UNCHANGED <<st, pend, done, ws, hdr>>
+WDone == /\ Trace[l].e = "wdone" /\ WDoneOK(Trace[l])
+         /\ UNCHANGED <<st, pend, done, ws, hdr>>
 
-\* WatchComplete (events): after the last writes of the run the watcher has been told everything
-WDone ==
-  /\ Trace[l].e = "wdone"
-  /\ \/ "watch-done" \in Relax
-     \/ Trace[l].wid \in DOMAIN ws /\ CaughtUp(st, ws[Trace[l].wid])
-  /\ UNCHANGED <<st, pend, done, ws, hdr>>
+\* the next event cannot be consumed in the current state, or it fixes the position of a watch's listing:
+\* some pending mutation may have to take effect first.  (a linearization point commutes with every
+\* other event that can be consumed without it)
+NeedLin == /\ l <= N
+           /\ \/ Trace[l].e = "ret" /\ Trace[l].id \notin done
+              \/ Trace[l].e = "wev" /\ (Trace[l].wid \notin DOMAIN ws \/ WEvNext(Trace[l]) = {})
+              \/ Trace[l].e = "wrd" /\ ~WRdOK(Trace[l])
+              \/ Trace[l].e = "wdone" /\ ~WDoneOK(Trace[l])
 
 ---------------------------------------------------------------------------
 (* Predicates evaluated directly on the recorded history, before any search (sound, named):   *)
@@ -213,9 +232,15 @@ Init == /\ l = 1 /\ hdr = 0 /\ st = [res |-> <<>>, log |-> <<>>, ep |-> 0]
         /\ pend = {} /\ done = {} /\ ws = <<>>
         /\ TLCSet(1, 1)
 
-Next == \/ Consume
-        \/ (NeedLin /\ \E i \in pend : \E T \in SUBSET Cands(i) : Lin(i, T))
-        \/ Finish
+Next == IF "full-search" \in Relax
+        THEN \/ Consume
+             \/ (l <= N /\ \E i \in pend : \E T \in SUBSET (IF Mutates(Trace[i]) THEN Cands(i) ELSE {}) : Lin(i, T))
+             \/ Finish
+        ELSE
+        IF Eager # {} THEN EagerLin
+        ELSE \/ Consume
+             \/ (NeedLin /\ \E i \in pend : Mutates(Trace[i]) /\ \E T \in SUBSET Cands(i) : Lin(i, T))
+             \/ Finish
 Spec == Init /\ [][Next]_vars
 
 Post == PrintT(<<"HWM", TLCGet(1)>>)
